@@ -45,7 +45,7 @@ package goja
 //@   ensures vm.tryStack[len(vm.tryStack)-1].sp == int32(vm.sp) && vm.tryStack[len(vm.tryStack)-1].stash == vm.stash && vm.tryStack[len(vm.tryStack)-1].privEnv == vm.privEnv [snapshot-registers]
 //@   ensures int(vm.tryStack[len(vm.tryStack)-1].callStackLen) == len(vm.callStack) && int(vm.tryStack[len(vm.tryStack)-1].iterLen) == len(vm.iterStack) && int(vm.tryStack[len(vm.tryStack)-1].refLen) == len(vm.refStack) [snapshot-stack-heights]
 //@   ensures vm.tryStack[len(vm.tryStack)-1].catchPos == catchPos && vm.tryStack[len(vm.tryStack)-1].finallyPos == finallyPos && vm.tryStack[len(vm.tryStack)-1].finallyRet == -1 && vm.tryStack[len(vm.tryStack)-1].exception == nil [handlers]
-//@   ensures forall m int :: 0 <= m && m < old(len(vm.tryStack)) ==> vm.tryStack[m].catchPos == old(vm.tryStack[m].catchPos) [frames-below-kept]
+//@   ensures forall m int :: 0 <= m && m < old(len(vm.tryStack)) ==> vm.tryStack[m].catchPos == old(vm.tryStack[m].catchPos) && vm.tryStack[m].finallyRet == old(vm.tryStack[m].finallyRet) [frames-below-kept]
 //@   assigns vm.tryStack, elems(vm.tryStack)
 
 //@ func (*vm).popTryFrame
@@ -64,13 +64,17 @@ package goja
 //@   ensures len(vm.tryStack) == l && samearray(vm.tryStack, old(vm.tryStack)) && sliceoff(vm.tryStack, old(vm.tryStack)) == 0 [cut-back-to-recorded-height]
 //@   assigns vm.tryStack
 
+// The VM registers that script is assumed to leave alone (jspreserved) but the interpreter's own
+// machinery - the run loop, unwinding, entering and leaving regions - does assign.
+//@ define vmRegs = any(vm.sp), any(vm.pc), any(vm.sb), any(vm.args), any(vm.stash), any(vm.privEnv), any(vm.tryStack), any(vm.callStack), any(tryFrame.exception), any(tryFrame.callStackLen), any(tryFrame.iterLen), any(tryFrame.refLen), any(tryFrame.sp), any(tryFrame.stash), any(tryFrame.privEnv), any(tryFrame.catchPos), any(tryFrame.finallyPos), any(tryFrame.finallyRet)
+
 // ---- unwinding
 
 // Marker frames (catchPos == tryPanicMarker) delimit the regions entered from Go (try, runTry, a Go
 // call of a script function, a generator step). Unwinding never removes or creates one: only the
 // function that pushed a marker pops it.
-//@ define markersKept = forall m int :: 0 <= m && m < old(len(vm.tryStack)) && old(vm.tryStack[m].catchPos) == tryPanicMarker ==> m < len(vm.tryStack) && vm.tryStack[m].catchPos == tryPanicMarker
-//@ define noNewMarkers = forall m int :: 0 <= m && m < len(vm.tryStack) && vm.tryStack[m].catchPos == tryPanicMarker ==> m < old(len(vm.tryStack)) && old(vm.tryStack[m].catchPos) == tryPanicMarker
+//@ define markersKept = forall m int :: 0 <= m && m < old(len(vm.tryStack)) && (old(vm.tryStack[m].catchPos) == tryPanicMarker && old(vm.tryStack[m].finallyRet) == -1) ==> m < len(vm.tryStack) && (vm.tryStack[m].catchPos == tryPanicMarker && vm.tryStack[m].finallyRet == -1)
+//@ define noNewMarkers = forall m int :: 0 <= m && m < len(vm.tryStack) && (vm.tryStack[m].catchPos == tryPanicMarker && vm.tryStack[m].finallyRet == -1) ==> m < old(len(vm.tryStack)) && (old(vm.tryStack[m].catchPos) == tryPanicMarker && old(vm.tryStack[m].finallyRet) == -1)
 
 // Assumed about unknown code (script, callbacks) that ends in a panic instead of completing: the
 // registers and the frames it pushed are left as they were at the point of the panic, but the
@@ -79,6 +83,7 @@ package goja
 //@ abrupthavoc vm.tryStack vm.callStack vm.stash vm.privEnv tryFrame.exception tryFrame.callStackLen tryFrame.iterLen tryFrame.refLen tryFrame.sp tryFrame.stash tryFrame.privEnv tryFrame.catchPos tryFrame.finallyPos tryFrame.finallyRet
 //@ abruptrely *vm vm @markersKept
 //@ abruptrely *vm vm forall k int :: 0 <= k && k < len(vm.tryStack) ==> vm.tryStack[k].sp >= 0
+//@ typeinvq *vm vm forall k int :: 0 <= k && k < len(vm.tryStack) ==> vm.tryStack[k].sp >= 0
 //@ abruptrely *vm vm @noNewMarkers
 
 // Assumed (the induction hypothesis of C03 for nested execution): script run from inside the VM
@@ -138,6 +143,7 @@ package goja
 //@   ensures result != nil ==> len(vm.tryStack) == 0 || vm.tryStack[len(vm.tryStack)-1].catchPos == tryPanicMarker [unhandled-stops-at-nearest-marker]
 //@   ensures_abrupt @markersKept [never-pops-a-marker]
 //@   ensures_abrupt @noNewMarkers [no-new-markers]
+//@   assigns script, @vmRegs
 
 // ---- interrupts (C15, sequential part): the run loop polls the interrupt flag with an atomic load
 // immediately before every instruction it executes - no instruction runs on a stale poll - and an
@@ -145,7 +151,7 @@ package goja
 //@ func (*vm).run
 //@   props C15
 //@   maypanic
-//@   requires vm != nil && vm.prg != nil
+//@   requires vm != nil
 //@   loop 1 vars count int
 //@   loop 1 invariant count >= 0 [counter]
 //@   site exec#1 vars interrupted bool
@@ -161,6 +167,7 @@ package goja
 //@   ensures_abrupt_assumed @markersKept [markers-kept]
 //@   ensures_abrupt_assumed @noNewMarkers [no-new-markers]
 //@   ensures_abrupt_assumed forall k int :: 0 <= k && k < len(vm.tryStack) ==> vm.tryStack[k].sp >= 0 [frames-wf]
+//@   assigns script, @vmRegs
 
 // Access discipline that makes Interrupt() from another goroutine race-free: the flag is only
 // touched through sync/atomic, the payload only with the lock held (one obligation per access).
@@ -236,14 +243,41 @@ package goja
 // The generator record is embedded in its owner and wired up once, when the owner is initialised.
 //@ constructor-of generator (*asyncRunner).start (*generatorObject).init
 //@ stable generator.vm
+//@ define ownMarker = int(g.tryStackLen) >= 1 && int(g.tryStackLen) <= len(g.vm.tryStack) && g.vm.tryStack[int(g.tryStackLen)-1].catchPos == tryPanicMarker && g.vm.tryStack[int(g.tryStackLen)-1].finallyRet == -1
+// The marker below the generator's frames was pushed before the extra call context, so its recorded
+// call-stack height differs from the current one: the walk over "this function's" frames stops above it.
+//@ define markerBelow = int(g.vm.tryStack[int(g.tryStackLen)-1].callStackLen) != len(g.vm.callStack)
 //@ func (*generator).enterNextFinallyFrame
-//@   props C08
+//@   props C08 C03
 //@   requires g != nil && g.vm != nil
-//@   loop 1 invariant g.vm == old(g.vm) [vm-fixed]
+//@   requires @ownMarker && @markerBelow [marker-below-the-generator-frames]
+//@   loop 1 vars callStackLen int
+//@   loop 1 invariant g.vm == old(g.vm) && g.tryStackLen == old(g.tryStackLen) && callStackLen == old(len(g.vm.callStack)) [vm-fixed]
+//@   loop 1 invariant @ownMarker && int(g.vm.tryStack[int(g.tryStackLen)-1].callStackLen) != callStackLen [own-marker-in-place]
 //@   site popTryFrame#1 vars tf *tryFrame, vm *vm
 //@   site popTryFrame#1 requires len(vm.iterStack) == int(tf.iterLen) && len(vm.refStack) == int(tf.refLen) [iterators-closed-before-frame-is-popped]
 //@   exitvars tf *tryFrame, vm *vm, ex *Exception
 //@   ensures canContinue && ex == nil ==> tf != nil && tf.finallyPos == -1 && tf.catchPos == tryPanicMarker && vm.pc >= 0 && len(vm.iterStack) == int(tf.iterLen) [finally-entered-latched-with-iterators-closed]
+//@   ensures g.tryStackLen == old(g.tryStackLen) && @ownMarker [own-marker-in-place]
+//@   ensures_abrupt @ownMarker [own-marker-still-in-place]
+//@   ensures_abrupt g.tryStackLen == old(g.tryStackLen) [heights-record-kept]
+//@   ensures @gMarkersKeptBelow [markers-kept]
+//@   ensures @gNoNewMarkersBelow [no-new-markers-below-own]
+//@   ensures_abrupt @gMarkersKeptBelow [markers-kept]
+//@   ensures_abrupt @gNoNewMarkersBelow [no-new-markers-below-own]
+//@   loop 1 invariant @gMarkersKeptBelow [markers-kept]
+//@   loop 1 invariant @gNoNewMarkersBelow [no-new-markers-below-own]
+//@   assigns script, @vmRegs
+
+// throw() is handleThrow() that panics when nothing handled the exception.
+//@ func (*vm).throw
+//@   props C03 C08
+//@   requires vm != nil
+//@   ensures @markersKept [never-pops-a-marker]
+//@   ensures @noNewMarkers [no-new-markers]
+//@   ensures_abrupt @markersKept [never-pops-a-marker]
+//@   ensures_abrupt @noNewMarkers [no-new-markers]
+//@   assigns script, @vmRegs
 
 // Assumed: capturing a stack trace only reads the VM (it allocates the frame slice).
 //@ func (*vm).captureStack
@@ -271,14 +305,17 @@ package goja
 // or unhandled exception, an uncatchable error passing through), no marker frame is removed.
 //@ func (*vm).runTryInner
 //@   props C03
-//@   requires vm != nil && vm.prg != nil
+//@   requires vm != nil
 //@   ensures @markersKept [never-pops-a-marker]
+//@   ensures @noNewMarkers [no-new-markers]
 //@   ensures_abrupt @markersKept [never-pops-a-marker]
+//@   ensures_abrupt @noNewMarkers [no-new-markers]
+//@   assigns script, @vmRegs
 
 //@ func (*vm).runTry
 //@   props C03
-//@   requires vm != nil && vm.prg != nil
-//@   loop 1 invariant old(len(vm.tryStack)) < len(vm.tryStack) && vm.tryStack[old(len(vm.tryStack))].catchPos == tryPanicMarker && vm.prg != nil [own-marker-in-place]
+//@   requires vm != nil
+//@   loop 1 invariant old(len(vm.tryStack)) < len(vm.tryStack) && vm.tryStack[old(len(vm.tryStack))].catchPos == tryPanicMarker && vm.tryStack[old(len(vm.tryStack))].finallyRet == -1 [own-marker-in-place]
 //@   loop 1 vars ex *Exception
 //@   ensures len(vm.tryStack) == old(len(vm.tryStack)) [marker-popped]
 //@   ensures_abrupt len(vm.tryStack) == old(len(vm.tryStack)) [marker-popped-on-panic]
@@ -288,10 +325,10 @@ package goja
 //@ stable Object.runtime Runtime.vm
 //@ func (*baseJsFuncObject).__call
 //@   props C03
-//@   requires f != nil && f.val != nil && f.val.runtime != nil && f.val.runtime.vm != nil && f.prg != nil
+//@   requires f != nil && f.val != nil && f.val.runtime != nil && f.val.runtime.vm != nil
 //@   loop 1 invariant true [pushing-arguments]
 //@   loop 2 vars vm *vm
-//@   loop 2 invariant vm != nil && old(len(vm.tryStack)) < len(vm.tryStack) && vm.tryStack[old(len(vm.tryStack))].catchPos == tryPanicMarker && vm.prg != nil [own-marker-in-place]
+//@   loop 2 invariant vm != nil && old(len(vm.tryStack)) < len(vm.tryStack) && vm.tryStack[old(len(vm.tryStack))].catchPos == tryPanicMarker && vm.tryStack[old(len(vm.tryStack))].finallyRet == -1 [own-marker-in-place]
 //@   exitvars vm *vm
 //@   ensures vm != nil && len(vm.tryStack) == old(len(vm.tryStack)) [marker-popped]
 //@   ensures_abrupt vm != nil && len(vm.tryStack) == old(len(vm.tryStack)) [marker-popped-on-panic]
